@@ -211,3 +211,21 @@ Theorem ants_getters_agree :
        exists s', an_step cfg s (AnGet2 k) = Some s' /\ at_get2 (an_tk s' k) = (p, an_now s) :: at_get2 t).
 Proof. exact ants_getters_agree_l. Qed.
 Print Assumptions ants_getters_agree.
+
+(* Error identity.  The pair decided for an attempt may carry ANY non-nil error value -- an ordinary handler
+   error, but also errors the pool uses itself and a handler returned as its own before the deadline: the
+   discard error obtained from another, busy pool (AnDiscard), context.DeadlineExceeded (AnDeadline),
+   context.Canceled (AnCanceled).  Whatever it is, when the dispatcher takes the pair of attempt a < R from
+   doneChan, the task goes on with attempt a + 1 (result/err hold that pair, nothing is released, no error
+   callback): no error value ends the retry loop early.  (All theorems above quantify over every ab_err too;
+   [at_phase = AnDiscarded], not the error value, is what "rejected as busy" means in ants_discard.) *)
+Theorem ants_any_error_is_retried :
+  forall cfg s k a c v e s',
+    an_fixed cfg ->
+    at_phase (an_tk s k) = AnWait a c -> an_chan_find a (at_chan (an_tk s k)) = Some (v, e) ->
+    an_is_nil e = false -> (a < ao_R (at_opts (an_tk s k)))%nat ->
+    an_step cfg s (AnDecide k true) = Some s' ->
+    at_phase (an_tk s' k) = AnEnq (S a) (an_now s) /\ at_fields (an_tk s' k) = (v, e) /\
+    at_rel (an_tk s' k) = at_rel (an_tk s k) /\ at_onerr (an_tk s' k) = at_onerr (an_tk s k).
+Proof. exact ants_any_error_is_retried_l. Qed.
+Print Assumptions ants_any_error_is_retried.
